@@ -79,12 +79,17 @@ impl AsyncWrite for ScriptRead {
 /// 1-byte length prefix. Length byte 0xEE is a decode error that consumes the byte; at EOF
 /// an incomplete frame is surfaced as `Partial` (so the codec has an end-of-stream frame).
 #[derive(Debug, Clone, Default)]
-pub struct LenPrefixed;
+pub struct LenPrefixed {
+    /// the end-of-stream trailer has been handed out
+    trailer_sent: bool,
+}
 
 #[derive(Debug, Clone, PartialEq, Eq)]
 pub enum LpFrame {
     Full(Vec<u8>),
     Partial(Vec<u8>),
+    /// emitted once at end of stream, from an *empty* buffer (a codec with end-of-stream frames)
+    Trailer,
 }
 
 impl Decoder for LenPrefixed {
@@ -108,7 +113,14 @@ impl Decoder for LenPrefixed {
     fn decode_eof(&mut self, src: &mut BytesMut) -> Result<Option<LpFrame>, io::Error> {
         match self.decode(src)? {
             Some(f) => Ok(Some(f)),
-            None if src.is_empty() => Ok(None),
+            None if src.is_empty() => {
+                if self.trailer_sent {
+                    Ok(None)
+                } else {
+                    self.trailer_sent = true;
+                    Ok(Some(LpFrame::Trailer))
+                }
+            }
             None => Ok(Some(LpFrame::Partial(src.split().to_vec()))),
         }
     }
@@ -121,6 +133,17 @@ pub trait Subject: Decoder<Error = io::Error> + Clone + Send + Sync + 'static {
     fn alphabet() -> Vec<u8>;
     fn show(item: &Self::Item) -> String;
     fn bytes_of(item: &Self::Item) -> Vec<u8>;
+    /// `Sink::poll_close` of a `Framed` over this codec (closes the *write* direction)
+    fn close_write(f: Pin<&mut Framed<ScriptRead, Self>>, cx: &mut Context<'_>) -> Poll<Result<(), io::Error>>;
+}
+
+impl actix_codec::Encoder<Vec<u8>> for LenPrefixed {
+    type Error = io::Error;
+    fn encode(&mut self, item: Vec<u8>, dst: &mut BytesMut) -> Result<(), io::Error> {
+        dst.extend_from_slice(&[item.len() as u8]);
+        dst.extend_from_slice(&item);
+        Ok(())
+    }
 }
 
 impl Subject for LinesCodec {
@@ -134,6 +157,9 @@ impl Subject for LinesCodec {
     }
     fn bytes_of(i: &String) -> Vec<u8> {
         i.as_bytes().to_vec()
+    }
+    fn close_write(f: Pin<&mut Framed<ScriptRead, Self>>, cx: &mut Context<'_>) -> Poll<Result<(), io::Error>> {
+        futures_sink::Sink::<String>::poll_close(f, cx)
     }
 }
 
@@ -149,6 +175,9 @@ impl Subject for BytesCodec {
     fn bytes_of(i: &BytesMut) -> Vec<u8> {
         i.to_vec()
     }
+    fn close_write(f: Pin<&mut Framed<ScriptRead, Self>>, cx: &mut Context<'_>) -> Poll<Result<(), io::Error>> {
+        futures_sink::Sink::<bytes::Bytes>::poll_close(f, cx)
+    }
 }
 
 impl Subject for LenPrefixed {
@@ -163,7 +192,11 @@ impl Subject for LenPrefixed {
     fn bytes_of(i: &LpFrame) -> Vec<u8> {
         match i {
             LpFrame::Full(v) | LpFrame::Partial(v) => v.clone(),
+            LpFrame::Trailer => vec![],
         }
+    }
+    fn close_write(f: Pin<&mut Framed<ScriptRead, Self>>, cx: &mut Context<'_>) -> Poll<Result<(), io::Error>> {
+        futures_sink::Sink::<Vec<u8>>::poll_close(f, cx)
     }
 }
 
@@ -220,8 +253,10 @@ pub enum Conv {
     ReplaceCodec,
     IntoMapIo,
     PartsRoundTrip,
+    /// not a conversion: the write direction is closed (`Sink::poll_close`), reading goes on
+    CloseWrite,
 }
-pub const CONVS: [Conv; 4] = [Conv::IntoMapCodec, Conv::ReplaceCodec, Conv::IntoMapIo, Conv::PartsRoundTrip];
+pub const CONVS: [Conv; 5] = [Conv::IntoMapCodec, Conv::ReplaceCodec, Conv::IntoMapIo, Conv::PartsRoundTrip, Conv::CloseWrite];
 
 fn drive<C: Subject>(codec: &C, script: &[Step]) -> Result<RunOut, String> {
     drive_with(codec, script, &[], None)
@@ -247,9 +282,18 @@ fn drive_with<C: Subject>(codec: &C, script: &[Step], prebuf: &[u8], conv: Optio
                 converted = true;
                 framed = match kind {
                     Conv::IntoMapCodec => framed.into_map_codec(|c| c),
-                    Conv::ReplaceCodec => framed.replace_codec(codec.clone()),
+                    Conv::ReplaceCodec => {
+                        let current = framed.codec_ref().clone();
+                        framed.replace_codec(current)
+                    }
                     Conv::IntoMapIo => framed.into_map_io(|io| io),
                     Conv::PartsRoundTrip => Framed::from_parts(framed.into_parts()),
+                    Conv::CloseWrite => {
+                        if !matches!(C::close_write(Pin::new(&mut framed), &mut cx), Poll::Ready(Ok(()))) {
+                            return Err("poll_close on an idle Framed over a transport that is always writable did not succeed".into());
+                        }
+                        framed
+                    }
                 };
             }
         }
@@ -693,7 +737,7 @@ pub fn run(args: &Args) -> i32 {
         match r["codec"].as_str() {
             Some("LinesCodec") => replay_one(&LinesCodec::default(), &r, &mut rep),
             Some("BytesCodec") => replay_one(&BytesCodec, &r, &mut rep),
-            _ => replay_one(&LenPrefixed, &r, &mut rep),
+            _ => replay_one(&LenPrefixed::default(), &r, &mut rep),
         }
         return rep.finish();
     }
@@ -705,7 +749,7 @@ pub fn run(args: &Args) -> i32 {
     rep.set("lines_runs", a);
     total += a;
     nontrivial += b;
-    let (a, b) = enumerate_small(&LenPrefixed, n, p, args.threads, &mut rep);
+    let (a, b) = enumerate_small(&LenPrefixed::default(), n, p, args.threads, &mut rep);
     rep.set("lenprefixed_runs", a);
     total += a;
     nontrivial += b;
@@ -719,13 +763,13 @@ pub fn run(args: &Args) -> i32 {
         rep.set("lines_runs_pending3", a);
         total += a;
         nontrivial += b;
-        let (a, b) = enumerate_small(&LenPrefixed, 5, 3, args.threads, &mut rep);
+        let (a, b) = enumerate_small(&LenPrefixed::default(), 5, 3, args.threads, &mut rep);
         rep.set("lenprefixed_runs_pending3", a);
         total += a;
         nontrivial += b;
     }
     let mut long_total = 0;
-    for (r, nt) in [long_runs(&LinesCodec::default(), &mut rep), long_runs(&LenPrefixed, &mut rep), long_runs(&BytesCodec, &mut rep)] {
+    for (r, nt) in [long_runs(&LinesCodec::default(), &mut rep), long_runs(&LenPrefixed::default(), &mut rep), long_runs(&BytesCodec, &mut rep)] {
         long_total += r;
         nontrivial += nt;
     }
